@@ -237,7 +237,7 @@ def shutdown_family(ctx):
     with open(cases, "w") as f:
         for sc in scs:
             f.write(json.dumps(sc, separators=(",", ":")) + "\n")
-    rc, out, trace, sums = ctx.go_test_parallel("^TestVerifOffsetManager$", cases, nproc=6, timeout=300, name="omsd", only=ONLY)
+    rc, out, trace, sums = ctx.go_test_parallel("^TestVerifOffsetManager$", cases, nproc=6, timeout=600, name="omsd", only=ONLY)
     crashed = []
     if rc != 0:
         if "[build failed]" in out or "[setup failed]" in out:
@@ -254,7 +254,8 @@ def shutdown_family(ctx):
     if fails:
         raise vlib.Inconclusive("shutdown scenario setup failed: %s" % fails[:2])
     executed = sum(s.get("cases", {}).get("shutdown", 0) for s in sums)
-    if executed != len(scs) and not crashed:
+    skipped = sum(s.get("cases", {}).get("shutdown_skipped", 0) for s in sums)   # after a hang in that worker
+    if executed + skipped != len(scs) and not crashed:
         raise vlib.Inconclusive("harness executed %d of %d shutdown scenarios" % (executed, len(scs)))
     rs = ctx.tlc_trace("OffsetManagerTrace", "OffsetManagerTrace.cfg", trace, shards=2, timeout=300, name="omsdtrace")
     allv, stats = [], {}
@@ -285,7 +286,9 @@ def shutdown_family(ctx):
                          "history": [{k: x[k] for k in x if k not in ("t", "stack")} for x in mine
                                      if x["i"] <= v["index"] and x["ev"] not in ("mark", "resetoff")][-12:]}
         viols.append(v)
-    out_stats = {"scenarios": len(scs), "executed": executed, "traces": stats.get("traces", 0),
+    if skipped and not any(v["clause"] == "close_hang" for v in allv):
+        raise vlib.Inconclusive("shutdown scenarios were skipped without a recorded hang")
+    out_stats = {"scenarios": len(scs), "executed": executed, "skipped_after_hang": skipped, "traces": stats.get("traces", 0),
                  "close_calls": sum(1 for e in evs if e["ev"] == "close_call"),
                  "close_returns": sum(1 for e in evs if e["ev"] == "close_ret"),
                  "awaited_calls_returned": stats.get("sd_returns", 0), "hangs": stats.get("sd_hangs", 0),
